@@ -27,6 +27,8 @@ WORKLOADS = {
     "W5": dict(ops="D1,D2,D7,C,D3,I,W", target=0),                 # clean restart in the middle
     "W6": dict(ops="D3,D4,I,H,W,D1,D2,D7,I,D8,I,H,W", target=600),        # reorganise the other way, hurry-up
     "W7": dict(ops="D1,D2,I,W,D3,D4,D6,D7,C", target=0),           # an invalidated block still queued, blocks queued behind it, clean restart
+    # family Long: 36 blocks queued between two idle calls, snapshot, two more blocks
+    "W8": dict(fam="Long", ops=",".join("D%d" % i for i in range(1, 37)) + ",I,W,D37,D38", target=0),
 }
 SKIP_POINTS = {"save_iter"}      # one per UTXO record: sampled, not enumerated
 # hook points TraceChainStore knows (other modules may add points of their own to the same files: not its business)
@@ -67,20 +69,28 @@ def run(ctx):
         raise Infra("sanity: RecoverNeverPanicsStrict should be refuted (known finding), got %s\n%s" % (rs.invariant, rs.tail))
     ctx.cov["design_counterexample"] = "RecoverNeverPanicsStrict refuted: snapshot on a branch that lost a reorganisation"
 
-    # ---- scenario + base chain
-    ex, lines, scen, n = L.export(ctx, FAM, 1, "crash")
-    world = os.path.join(ctx.scratch, "world")
-    os.makedirs(world)
+    # ---- scenario + base chain (one world per scenario family)
     gt = int(time.time()) - 5 * 24 * 3600
-    common = ["-dir", world, "-scenario", scen, "-gt", str(gt), "-pad", "600"]
-    p = ctx.run([binp, "mkbase"] + common, timeout=300)
-    if p.returncode != 0:
-        raise Infra("mkbase failed: " + p.stderr[-2000:])
+    worlds = {}
+    for fam in sorted(set(wl.get("fam", FAM) for wl in WORKLOADS.values())):
+        ex, lines, scen, n = L.export(ctx, fam, 1, "crash-" + fam)
+        wdir = os.path.join(ctx.scratch, "world-" + fam)
+        os.makedirs(wdir)
+        com = ["-dir", wdir, "-scenario", scen, "-gt", str(gt), "-pad", "600"]
+        p = ctx.run([binp, "mkbase"] + com, timeout=300)
+        if p.returncode != 0:
+            raise Infra("mkbase failed: " + p.stderr[-2000:])
+        worlds[fam] = (wdir, com)
+
+    def wdir_of(wl):
+        return worlds[wl.get("fam", FAM)][0]
 
     def work(node, wl, env=None):
+        common = worlds[wl.get("fam", FAM)][1]
         return ctx.run([binp, "work"] + common + ["-node", node, "-ops", wl["ops"], "-target", str(wl["target"])], timeout=300, env=env)
 
     def recover(node, wl, tear=None):
+        common = worlds[wl.get("fam", FAM)][1]
         argv = [binp, "recover"] + common + ["-node", node, "-ops", wl["ops"]]
         if tear:
             argv += ["-tear", tear]
@@ -95,8 +105,8 @@ def run(ctx):
     traces = []
     points = {}
     for name, wl in WORKLOADS.items():
-        node = os.path.join(world, "t-" + name)
-        tr = os.path.join(world, name + ".trace")
+        node = os.path.join(wdir_of(wl), "t-" + name)
+        tr = os.path.join(wdir_of(wl), name + ".trace")
         p = work(node, wl, env={"VERIF_TRACE": tr})
         j = last_json(p.stdout)
         if p.returncode != 0 or not j or not j.get("ok"):
@@ -114,31 +124,37 @@ def run(ctx):
             pts[e["ev"]] = max(pts[e["ev"]], e["n"])
         points[name] = pts
         if "C" not in wl["ops"].split(","):     # a reopen in the middle restarts the model's volatile state: not traced
-            traces.append((name, evs))
+            traces.append((name, evs, wl.get("fam", FAM)))
         # an uncrashed run that simply ends (no Close) must also recover
         rep = recover(node, wl)
         judge(ctx, name, wl, "end-of-run", rep)
         shutil.rmtree(node, ignore_errors=True)
     tv = 0
-    allev = []
-    for name, evs in traces:
-        allev.append({"ev": "reset", "b": 0, "acc": False, "tip": 0, "abort": False})
-        for e in evs:
-            if e["ev"] in SKIP_POINTS or e["ev"] not in KNOWN_EVENTS:
+    allev_by_fam = {}
+    for fam in sorted(set(t[2] for t in traces)):
+        allev = []
+        for name, evs, f in traces:
+            if f != fam:
                 continue
-            allev.append({"ev": e["ev"], "b": e.get("b", 0), "acc": bool(e.get("acc", False)), "tip": e.get("tip", 0), "abort": bool(e.get("abort", False))})
-    trp = os.path.join(ctx.scratch, "cs-trace.ndjson")
-    open(trp, "w").write("\n".join(json.dumps(e) for e in allev) + "\n")
-    acc, hw, rt = validate(ctx, trp)
-    if not acc:
-        line = allev[hw - 1] if hw and hw <= len(allev) else None
-        what = "hook trace of the real node is not a behaviour of ChainStore at event %s: %s" % (hw, json.dumps(line))
-        if rt.invariant:
-            what = "invariant %s violated on the hook trace of the real node (event %s)" % (rt.invariant, hw)
-        ctx.violation("C07:trace:%s" % (line or {}).get("ev", rt.invariant), {"trace_tail": allev[max(0, (hw or 1) - 25):(hw or 1) + 1], "tlc": rt.tail[-2000:]}, what)
-    else:
-        tv = len(traces)
-        states += rt.distinct or 0
+            allev.append({"ev": "reset", "b": 0, "acc": False, "tip": 0, "abort": False})
+            for e in evs:
+                if e["ev"] in SKIP_POINTS or e["ev"] not in KNOWN_EVENTS:
+                    continue
+                allev.append({"ev": e["ev"], "b": e.get("b", 0), "acc": bool(e.get("acc", False)), "tip": e.get("tip", 0), "abort": bool(e.get("abort", False))})
+        allev_by_fam[fam] = allev
+        trp = os.path.join(ctx.scratch, "cs-trace-%s.ndjson" % fam)
+        open(trp, "w").write("\n".join(json.dumps(e) for e in allev) + "\n")
+        acc, hw, rt = validate(ctx, trp, fam)
+        if not acc:
+            line = allev[hw - 1] if hw and hw <= len(allev) else None
+            what = "hook trace of the real node is not a behaviour of ChainStore at event %s: %s" % (hw, json.dumps(line))
+            if rt.invariant:
+                what = "invariant %s violated on the hook trace of the real node (event %s)" % (rt.invariant, hw)
+            ctx.violation("C07:trace:%s" % (line or {}).get("ev", rt.invariant), {"family": fam, "trace_tail": allev[max(0, (hw or 1) - 25):(hw or 1) + 1], "tlc": rt.tail[-2000:]}, what)
+        else:
+            tv += len([t for t in traces if t[2] == fam])
+            states += rt.distinct or 0
+    allev = allev_by_fam.get(FAM, [])
 
     # ---- 3. crash-point enumeration
     jobs = []
@@ -160,7 +176,7 @@ def run(ctx):
     def one(job):
         name, pt, k, tear = job
         wl = WORKLOADS[name]
-        node = os.path.join(world, "c-%s-%s-%d-%s" % (name, pt, k, tear or "x"))
+        node = os.path.join(wdir_of(wl), "c-%s-%s-%d-%s" % (name, pt, k, tear or "x"))
         try:
             p = work(node, wl, env={"VERIF_CRASH_AT": "%s#%d" % (pt, k)})
             if p.returncode != -9:
@@ -195,7 +211,7 @@ def run(ctx):
         mut[i], mut[j] = mut[j], mut[i]
         mp = os.path.join(ctx.scratch, "cs-trace-mut.ndjson")
         open(mp, "w").write("\n".join(json.dumps(e) for e in mut[:j + 3]) + "\n")
-        acc2, hw2, _ = validate(ctx, mp)
+        acc2, hw2, _ = validate(ctx, mp, FAM)
         if acc2:
             raise Infra("binding self-test failed: a trace with index-before-data was accepted")
 
@@ -220,8 +236,8 @@ def judge(ctx, name, wl, where, rep):
         ctx.violation(sig, {"workload": name, "ops": wl["ops"], "target": wl["target"], "crash_at": where, "report": rep}, "%s crash at %s: %s" % (name, where, what))
 
 
-def validate(ctx, trace_path):
-    r = ctx.tlc("TraceChainStore", "ChainStore_trace", workers=1, defines=dict(FAM=FAM), timeout=900, files={"trace.ndjson": trace_path})
+def validate(ctx, trace_path, fam=FAM):
+    r = ctx.tlc("TraceChainStore", "ChainStore_trace", workers=1, defines=dict(FAM=fam), timeout=900, files={"trace.ndjson": trace_path})
     hw = None
     for line in open(r.outpath, errors="replace"):
         m = re.search(r"VFREJECT\", (\d+)", line)
